@@ -28,6 +28,22 @@ func main() {
 	switch os.Args[1] {
 	case "dev":
 		devCmd(os.Args[2:])
+	case "harness":
+		// maintainer aid: print the raw output of a bounded API harness (harness <prop> [<ecosystem>])
+		w, err := loadWorld(repoDir)
+		if err != nil {
+			fmt.Println("load:", err)
+			os.Exit(2)
+		}
+		for _, r := range refOrders {
+			if len(os.Args) > 2 && r.prop == os.Args[2] {
+				out, _ := runOverlayTest(w, w.byShort[r.pkg], r.source(), 240*time.Second)
+				fmt.Println(out)
+			}
+		}
+		if len(os.Args) > 3 && os.Args[2] == "C05" {
+			fmt.Println(runShorthand(w, os.Args[3]).out)
+		}
 	case "check":
 		os.Exit(checkCmd(os.Args[2:]))
 	default:
